@@ -114,44 +114,78 @@ func uniqSorted(v []float64) []float64 {
 }
 
 func learnLattice3(r render.Render3, bb sdf.Box3) (*lattice3, error) {
-	rec := &recSDF3{s: &fieldSDF3{bb: bb, fn: func(v3.Vec) float64 { return 1e-30 }}}
+	var mu sync.Mutex
+	pts := make([]v3.Vec, 0, 1024)
+	rec := &fieldSDF3{bb: bb, fn: func(p v3.Vec) float64 {
+		mu.Lock()
+		pts = append(pts, p)
+		mu.Unlock()
+		return 1e-30
+	}}
 	ts := render.ToTriangles(rec, r)
 	if len(ts) != 0 {
 		return nil, fmt.Errorf("learn: surface-free field produced %d triangles", len(ts))
 	}
-	var xs, ys, zs []float64
+	xs, ys, zs := make([]float64, len(pts)), make([]float64, len(pts)), make([]float64, len(pts))
+	for i, p := range pts {
+		xs[i], ys[i], zs[i] = p.X, p.Y, p.Z
+	}
+	// distinct sample points (renderers normally ask each node once; fall back to a set if not)
 	set := map[v3.Vec]struct{}{}
-	for _, e := range rec.events {
-		if _, ok := set[e.P]; !ok {
-			set[e.P] = struct{}{}
-			xs, ys, zs = append(xs, e.P.X), append(ys, e.P.Y), append(zs, e.P.Z)
+	distinct := len(pts)
+	{
+		sorted := append([]v3.Vec(nil), pts...)
+		sort.Slice(sorted, func(i, j int) bool {
+			a, b := sorted[i], sorted[j]
+			if a.X != b.X {
+				return a.X < b.X
+			}
+			if a.Y != b.Y {
+				return a.Y < b.Y
+			}
+			return a.Z < b.Z
+		})
+		distinct = 0
+		for i := range sorted {
+			if i == 0 || sorted[i] != sorted[i-1] {
+				distinct++
+			}
 		}
 	}
-	l := &lattice3{xs: uniqSorted(xs), ys: uniqSorted(ys), zs: uniqSorted(zs), nodes: len(set)}
+	_ = set
+	l := &lattice3{xs: uniqSorted(xs), ys: uniqSorted(ys), zs: uniqSorted(zs), nodes: distinct}
 	nx, ny, nz := len(l.xs), len(l.ys), len(l.zs)
 	if nx < 2 || ny < 2 || nz < 2 {
 		return nil, fmt.Errorf("learn: degenerate lattice %dx%dx%d", nx, ny, nz)
 	}
-	if len(set) == nx*ny*nz {
+	if distinct == nx*ny*nz {
 		l.stride = 1
 		l.complete = true
 		return l, nil
 	}
 	// octree-like: samples are cell corners (all indices even) and cell centres (all odd)
 	even, odd, other := 0, 0, 0
-	for p := range set {
+	seenEven := map[[3]int]struct{}{}
+	for _, p := range pts {
 		i, j, k := l.index(p)
 		if i < 0 {
 			return nil, fmt.Errorf("learn: point %v not on the coordinate grid", p)
 		}
 		switch {
 		case i%2 == 0 && j%2 == 0 && k%2 == 0:
-			even++
+			if distinct != len(pts) {
+				seenEven[[3]int{i, j, k}] = struct{}{}
+			} else {
+				even++
+			}
 		case i%2 == 1 && j%2 == 1 && k%2 == 1:
 			odd++
 		default:
 			other++
 		}
+	}
+	if distinct != len(pts) {
+		even = len(seenEven)
 	}
 	if other == 0 && odd > 0 && nx%2 == 1 && ny%2 == 1 && nz%2 == 1 {
 		l.stride = 2
